@@ -2,6 +2,7 @@ package conditions
 
 import (
 	"fmt"
+	"unicode/utf8"
 
 	metav1 "k8s.io/apimachinery/pkg/apis/meta/v1"
 	v1 "sigs.k8s.io/gateway-api/apis/v1"
@@ -16,6 +17,15 @@ const (
 
 	// GatewayClassMessageGatewayClassConflict is a message that describes GatewayClassReasonGatewayClassConflict.
 	GatewayClassMessageGatewayClassConflict = "The resource is ignored due to a conflicting GatewayClass resource"
+)
+
+const (
+	// maxConditionMessageLength is the maximum length (in characters) of a condition message that the Kubernetes API
+	// accepts (see metav1.Condition). A status with a longer message is rejected by the API server as a whole.
+	maxConditionMessageLength = 32768
+
+	// truncatedMessageSuffix ends a message that was cut to maxConditionMessageLength.
+	truncatedMessageSuffix = "... (truncated)"
 )
 
 // Condition defines a condition to be reported in the status of resources.
@@ -145,9 +155,29 @@ func ConvertConditions(
 			ObservedGeneration: observedGeneration,
 			LastTransitionTime: transitionTime,
 			Reason:             conds[i].Reason,
-			Message:            conds[i].Message,
+			Message:            truncateMessage(conds[i].Message),
 		}
 	}
 
 	return apiConds
+}
+
+// truncateMessage cuts a message that is longer than the Kubernetes API accepts to exactly the maximum length,
+// on a character boundary. Messages within the limit are returned unchanged.
+func truncateMessage(msg string) string {
+	// the number of characters never exceeds the number of bytes
+	if len(msg) <= maxConditionMessageLength || utf8.RuneCountInString(msg) <= maxConditionMessageLength {
+		return msg
+	}
+
+	keep := maxConditionMessageLength - len(truncatedMessageSuffix)
+	chars := 0
+	for i := range msg {
+		if chars == keep {
+			return msg[:i] + truncatedMessageSuffix
+		}
+		chars++
+	}
+
+	return msg
 }
